@@ -798,16 +798,12 @@ func buildFetchFamilies(thorough bool) {
 		}
 		nPlain := len(shapes) * len(decosPlain)
 		nExt := len(shapes) * len(decosExt)
-		// thorough: one more layer (7 nodes) under a reduced set of decorations
+		// thorough: one more layer (7 nodes), BODYSTRUCTURE requests
 		var shapes7 []*shape
 		var decos7 []deco
 		if thorough {
 			shapes7 = shapesExactly(7)
-			for _, d := range decosExt {
-				if (d.params+d.disp+d.lang+d.loc)%4 == 0 {
-					decos7 = append(decos7, d)
-				}
-			}
+			decos7 = decosExt
 		}
 		n7 := len(shapes7) * len(decos7)
 		run.Set("bodystructure_trees_7_nodes", len(shapes7))
